@@ -35,7 +35,7 @@ var relPaths = []string{
 }
 
 // Paths that only look like the prefix "/public".
-var lookAlikes = []string{"/publicity/page.html", "/public.env", "/publicapp.js", "/publi", "/publica.txt", "/Public/a.txt", "/public../outside/secret.txt", "/publicindex.html", "/other/a.txt", "/a.txt", "/pre/fixa.txt", "/pre/a.txt", "/pre"}
+var lookAlikes = []string{"/x/../public/a.txt", "//public/a.txt", "/./public/a.txt", "/x/../public/sub", "/x/../public/sub/", "/public/../public/a.txt", "/x/../pre/fix/a.txt", "/pre//fix/a.txt", "/publicity/page.html", "/public.env", "/publicapp.js", "/publi", "/publica.txt", "/Public/a.txt", "/public../outside/secret.txt", "/publicindex.html", "/other/a.txt", "/a.txt", "/pre/fixa.txt", "/pre/a.txt", "/pre"}
 
 var methods = []string{"GET", "HEAD", "POST", "PUT", "DELETE", "get", "OPTIONS"}
 
@@ -46,6 +46,7 @@ type reqInfo struct {
 	rel      string // path below the prefix as generated ("" when the path is not meant to be under it)
 	hasRange bool
 	hasINM   bool
+	hasIMS   bool
 }
 
 // normPrefix is the statement's reading of the option: leading slash, no
@@ -125,6 +126,10 @@ func (Engine) Run(t *tape.Tape, o eng.Opts) *eng.Result {
 				q.Hdr = append(q.Hdr, [2]string{"Range", ranges[gen.Intn(len(ranges))]})
 				info.hasRange = true
 			}
+			if gen.Intn(6) == 1 {
+				q.Hdr = append(q.Hdr, [2]string{"If-Modified-Since", []string{"Thu, 01 Jan 2037 00:00:00 GMT", "Thu, 01 Jan 1998 00:00:00 GMT", "garbage"}[gen.Intn(3)]})
+				info.hasIMS = true
+			}
 			if k > 0 && gen.Intn(3) == 1 {
 				prev := reqs[ti][gen.Intn(k)]
 				q.ETagOf = prev
@@ -153,6 +158,12 @@ func (Engine) Run(t *tape.Tape, o eng.Opts) *eng.Result {
 				}
 				if mutate && fg.Chance(400) {
 					target := []string{"a.txt", "index.html", "sub/index.html", "sub", "sub/b.txt", "noindex/c.txt", "home.htm", "big.bin", "idxdir"}[fg.Intn(9)]
+					if own := strings.Trim(info.rel, "/"); fg.Intn(5) < 3 && d.files[own] != nil {
+						target = own // aim at the very file or directory this request names
+						if d.files[own].spec.isDir && d.files[path.Join(own, index)] != nil && fg.Intn(2) == 1 {
+							target = path.Join(own, index)
+						}
+					}
 					version := 1 + fg.Intn(8)
 					m := world.FSMutation{At: fg.Intn(6)}
 					f := d.files[target]
@@ -391,8 +402,41 @@ func (Engine) Run(t *tape.Tape, o eng.Opts) *eng.Result {
 			}
 			res.Probes["redirects"]++
 		}
-		if staticStatus == 304 && !info.hasINM && q.ETagOf == nil {
+		if staticStatus == 304 && !info.hasINM && !info.hasIMS && q.ETagOf == nil {
 			viol("spurious-304", "304 without a conditional request\n  "+desc)
+		}
+		// Whatever cannot be served is passed over in silence; a slash-less directory is only ever redirected.
+		if !anyMutation && under && cleanRel(rest) && fsFaults == 0 {
+			want := strings.Trim(rest, "/")
+			isDir, _ := dirOK(d, want)
+			f := d.files[want]
+			switch {
+			case want != "" && f == nil && !isDir:
+				viol("answered-missing-file", "Static answered "+itoa(staticStatus)+" for a path that names nothing in the directory\n  "+desc)
+			case isDir && !strings.HasSuffix(q.Path, "/") && (staticStatus < 300 || staticStatus >= 400):
+				viol("directory-without-redirect", "a directory requested without trailing slash was answered "+itoa(staticStatus)+" instead of being redirected (or passed over)\n  "+desc)
+			case isDir && strings.HasSuffix(q.Path, "/"):
+				if fi := d.files[path.Join(want, index)]; fi == nil || fi.spec.isDir {
+					viol("answered-directory-without-index", "Static answered "+itoa(staticStatus)+" for a directory that has no index file\n  "+desc)
+				}
+			}
+		}
+		// A complete answer is complete: without an injected read/write fault the body has the announced length.
+		if (staticStatus == 200 || staticStatus == 206) && q.Method == "GET" && len(q.WPlan) == 0 && fsFaults == 0 {
+			if cl := q.W.Sent.Get("Content-Length"); cl != "" {
+				n := 0
+				okNum := true
+				for _, c := range cl {
+					if c < '0' || c > '9' || n > 1<<40 {
+						okNum = false
+						break
+					}
+					n = n*10 + int(c-'0')
+				}
+				if !okNum || n != staticBody {
+					viol("length-mismatch", "Content-Length "+cl+" announced but "+itoa(staticBody)+" body bytes sent, with no read or write fault injected\n  "+desc)
+				}
+			}
 		}
 		// Rule 5: 5xx only after an injected fault (seek) — never file content with it (checked above).
 		_ = seekFault
